@@ -14,6 +14,7 @@ import (
 func init() {
 	Register(&PropDef{ID: "C01", Run: func(c *Ctx) { runSeq(c, seqC01) }, Config: seqConfig})
 	Register(&PropDef{ID: "C03", Run: func(c *Ctx) { runSeq(c, seqC03) }, Config: seqConfig})
+	Register(&PropDef{ID: "C12", Run: func(c *Ctx) { runSeq(c, seqC12) }, Config: seqConfig})
 }
 
 // seqConfig: sequential scenarios explore histories; the schedule of the
@@ -62,7 +63,7 @@ var c01Patterns = []string{"a", "a.", "a.b", "a.b.", "", "b", "t."}
 var c01Wild = []string{"a..c", ".b", "a.", "..", "a.b.", ".", "", "t."}
 var c01Bad = []string{"a b", "a#b", "a..b", ".a", "a.", ""}
 
-func genPubOpts(g *Rand, nslots int) wamp.Dict {
+func genPubOpts(g *Rand, nslots int, discloseOften bool) wamp.Dict {
 	o := wamp.Dict{}
 	if g.Chance(2, 3) {
 		o["acknowledge"] = true
@@ -99,7 +100,7 @@ func genPubOpts(g *Rand, nslots int) wamp.Dict {
 	if g.Chance(1, 5) {
 		o[g.Pick("exclude_xattr", "eligible_xattr")] = names("v1", "v2", "v3")
 	}
-	if g.Chance(1, 6) {
+	if g.Chance(1, 6) || (discloseOften && g.Chance(1, 2)) {
 		o["disclose_me"] = true
 	}
 	return o
@@ -111,6 +112,17 @@ func genJoin(g *Rand, slot int, realm string, fl seqFlavour) SOp {
 	op.Role = seqRoles[op.Authid]
 	if g.Chance(2, 3) {
 		op.Xattr = g.Pick("v1", "v2")
+	}
+	if fl == seqC12 {
+		op.Scribble = g.Chance(1, 3)
+		switch g.Intn(4) {
+		case 0:
+			op.Transport = wamp.Dict{"auth": wamp.Dict{"cookie": "secret"}}
+		case 1:
+			op.Transport = wamp.Dict{"auth": wamp.Dict{"cookie": "secret"}, "peer": "10.0.0.1"}
+		case 2:
+			op.Transport = wamp.Dict{"peer": "10.0.0.2"}
+		}
 	}
 	return op
 }
@@ -174,7 +186,7 @@ func genSeqOps(g *Rand, fl seqFlavour, nslots, n int, thorough bool) []SOp {
 			if g.Chance(1, 12) {
 				op.URI = c01Bad[g.Intn(len(c01Bad))]
 			}
-			op.Opts = genPubOpts(g, nslots)
+			op.Opts = genPubOpts(g, nslots, fl == seqC12)
 			op.Args = wamp.List{fmt.Sprintf("m%d", uniq)}
 			if g.Chance(1, 3) {
 				op.Kw = wamp.Dict{"k": uniq, "nested": wamp.Dict{"l": wamp.List{1, "x"}}}
@@ -200,7 +212,7 @@ func genSeqOps(g *Rand, fl seqFlavour, nslots, n int, thorough bool) []SOp {
 			if g.Chance(1, 2) {
 				op.Opts["invoke"] = g.Pick("single", "first", "last", "roundrobin", "random", "roundrobin", "bogus")
 			}
-			if g.Chance(1, 5) {
+			if g.Chance(1, 5) || (fl == seqC12 && g.Chance(1, 3)) {
 				op.Opts["disclose_caller"] = true
 			}
 			if g.Chance(1, 6) {
@@ -215,7 +227,7 @@ func genSeqOps(g *Rand, fl seqFlavour, nslots, n int, thorough bool) []SOp {
 			if g.Chance(1, 3) {
 				op.Opts["receive_progress"] = true
 			}
-			if g.Chance(1, 6) {
+			if g.Chance(1, 6) || (fl == seqC12 && g.Chance(1, 2)) {
 				op.Opts["disclose_me"] = true
 			}
 			if g.Chance(1, 8) {
@@ -309,6 +321,10 @@ func runSeq(c *Ctx, fl seqFlavour) {
 		mr.Lenient = true
 		q.IgnoreMeta = true
 	}
+	if fl == seqC12 {
+		q.IgnoreMeta = true
+		q.CheckSenderPayload = true
+	}
 	q.AddRealm(mr)
 	for i, op := range ops {
 		if !c.Kept(i) {
@@ -321,5 +337,9 @@ func runSeq(c *Ctx, fl seqFlavour) {
 		}
 	}
 	c.Res.NonTrivial = c.Res.Probes["publish_multi_recipient"] > 0 || c.Res.Probes["call_routed"] > 1
+	simrt.WaitQuiescent("end")
+	if fl == seqC12 {
+		CheckImmutable(c, w)
+	}
 	CloseAll(c, w, false)
 }
